@@ -206,7 +206,11 @@ def judge_subpaths(before_d, strings):
                 _emit("subpaths", "violation", before_d, None, f"subpath string {s!r} unparsable", "bad_output")
                 return
             cmds = cmds[1:]
-        got.extend(x for x in PG.interpret(cmds) if not x.zero_extent(tol))
+        parts = PG.interpret(cmds)
+        if len(parts) > 1:
+            _emit("subpaths", "violation", before_d, None, f"the string {s!r} returned by subpaths() holds {len(parts)} subpaths, not one", "not_split")
+            return
+        got.extend(x for x in parts if not x.zero_extent(tol))
     if len(got) != len(ref):
         mech = classify("subpaths", before, None, "")
         _emit("subpaths", "violation", before_d, None, f"{len(ref)} non-empty subpaths in the path, {len(got)} in {strings!r}", "count", mech)
